@@ -394,3 +394,159 @@ Example C02_nonvacuous_lsloop :
   armijo_type (lc_alg (ex_cfg BGd C07_Defs.Lemarechal 128 12)) = true /\
   PrimFloat.ltb PrimFloat.zero (C07_Defs.c1 (lc_prm (ex_cfg BGd C07_Defs.Lemarechal 128 12))) = true.
 Proof. split; [|split; [|split; [|split; [|split]]]]; try exact (proj1 s_examples); vm_compute; repeat split; try reflexivity; try discriminate. Qed.
+
+(* ==================================================================================================================== *)
+(* Extension 2: the bodies of the simplest best-state solvers inside the model, as whole runs -- src/solver/sgm.cpp,       *)
+(* cocob.cpp, pdsgm.cpp (sda, wda): model C02_Bodies_Defs.body_run = the common skeleton b_run over a `rule` (how the next   *)
+(* point is computed) composed with C02_Defs (state, update_if_better, value_test, done). Every theorem quantifies over      *)
+(* EVERY oracle record (objective as a first-order oracle over points: any function, also non-convex / non-smooth /          *)
+(* returning non-finite values; lpNorm<2>; libm pow and tanh), every configuration (epsilon, max_evals, patience, the        *)
+(* body's parameter: any binary64 / integer value), every starting point and every amount of fuel.                          *)
+(* ==================================================================================================================== *)
+From LNGen Require Import Src_c02b.
+From LN Require Import C02_Bodies_Defs C02_Bodies C02_Bodies_Statements.
+
+(* (1) termination within the budget: with fuel > max_evals - 2 the run never ends for lack of fuel (the fuel of body_minimize
+   is enough); every pass performs EXACTLY ONE evaluation (value + sub-gradient: fcalls = gcalls = evaluations requested =
+   passes + 1) and at most one done() call more than passes (the zero-sub-gradient exit); the evaluations, in solver_t's unit
+   fcalls + gcalls, are at most max(2, max_evals + 1) -- the property's max_evals + 1100 + 8 dim with room; the reported counts
+   never exceed the function's counters *)
+Theorem C02_bodies_budget : forall b orc cfg fuel x0,
+  let r := body_run b orc cfg fuel x0 in
+  (Z.max 0 (bc_maxev cfg - 2) < Z.of_nat fuel -> br_exit r <> BX_FUEL) /\
+  br_fc r = br_ne r /\ br_gc r = br_ne r /\ br_ne r = br_iters r + 1 /\ 0 <= br_iters r /\
+  br_iters r <= br_dones r <= br_iters r + 1 /\
+  2 <= br_fc r + br_gc r <= Z.max 2 (bc_maxev cfg + 1) /\
+  sfcalls (br_s r) <= br_fc r /\ sgcalls (br_s r) <= br_gc r.
+Proof. intros b orc cfg fuel x0. exact (generic_budget orc _ cfg (rule_loop b orc cfg x0) fuel x0). Qed.
+Print Assumptions C02_bodies_budget.
+
+Theorem C02_bodies_fuel : forall cfg, Z.max 0 (bc_maxev cfg - 2) < Z.of_nat (b_fuel cfg).
+Proof. exact b_fuel_enough. Qed.
+Print Assumptions C02_bodies_fuel.
+
+(* the same for ANY rule computing the next point, provided its loop condition is the budget test: termination and the
+   evaluation count do not depend on how the iterate is computed *)
+Theorem C02_bodies_budget_any_rule : forall orc R cfg,
+  (forall fc gc m, r_loop R fc gc m = (fc + gc <? m)) -> forall fuel x0,
+  let r := b_run orc R cfg fuel x0 in
+  (Z.max 0 (bc_maxev cfg - 2) < Z.of_nat fuel -> br_exit r <> BX_FUEL) /\
+  br_fc r = br_ne r /\ br_gc r = br_ne r /\ br_ne r = br_iters r + 1 /\ 0 <= br_iters r /\
+  br_iters r <= br_dones r <= br_iters r + 1 /\
+  2 <= br_fc r + br_gc r <= Z.max 2 (bc_maxev cfg + 1) /\
+  sfcalls (br_s r) <= br_fc r /\ sgcalls (br_s r) <= br_gc r.
+Proof. exact generic_budget. Qed.
+Print Assumptions C02_bodies_budget_any_rule.
+
+(* (2a) C02_triple_honest discharged for these clients: the returned (x, fx, gx) is the answer of the oracle to one of the
+   evaluations the run requested, at the returned point *)
+Theorem C02_bodies_honest : forall b orc cfg fuel x0,
+  let r := body_run b orc cfg fuel x0 in
+  exists k, 0 <= k < br_ne r /\ bo_eval orc k (sx (br_s r)) = (sfx (br_s r), sgx (br_s r)).
+Proof. intros b orc cfg fuel x0. exact (generic_honest orc _ cfg (rule_loop b orc cfg x0) fuel x0). Qed.
+Print Assumptions C02_bodies_honest.
+
+(* (2b) the returned state is the best state: whenever the starting value is finite the returned value is finite and
+   fx <= f(x0) in binary64 (these bodies only ever call update_if_better: C02_better_strict at every pass) *)
+Theorem C02_bodies_best : forall b orc cfg fuel x0,
+  let r := body_run b orc cfg fuel x0 in
+  ffin (fst (bo_eval orc 0 x0)) = true ->
+  ffin (sfx (br_s r)) = true /\ PrimFloat.leb (sfx (br_s r)) (fst (bo_eval orc 0 x0)) = true.
+Proof. intros b orc cfg fuel x0. exact (generic_best orc _ cfg (rule_loop b orc cfg x0) fuel x0). Qed.
+Print Assumptions C02_bodies_best.
+
+(* (3a) status facts through solver_t::done: the status is one of the three; `converged` only for a valid state from a done()
+   call with both flags true; `failed` only from a done() call with iter_ok = false (the last value was not finite) or an
+   invalid state; `max_iters` only through the budget test (or lack of fuel); unless `failed`, the state is valid (x, fx, gx
+   finite) as soon as one done() call was made -- before that it is the starting state *)
+Theorem C02_bodies_status : forall b orc cfg fuel x0,
+  let r := body_run b orc cfg fuel x0 in
+  let s := br_s r in
+  status_ok (sstatus s) /\
+  (sstatus s = ST_CONVERGED ->
+     valid s = true /\ br_ok r = true /\ br_conv r = true /\ (br_exit r = BX_DONE \/ br_exit r = BX_ZERO)) /\
+  (sstatus s = ST_FAILED ->
+     1 <= br_dones r /\ (br_exit r = BX_DONE \/ br_exit r = BX_ZERO) /\ (br_ok r = false \/ valid s = false)) /\
+  (sstatus s = ST_MAX_ITERS ->
+     (br_exit r = BX_BUDGET /\ bc_maxev cfg <= br_fc r + br_gc r \/ br_exit r = BX_FUEL \/
+      br_exit r = BX_ZERO /\ br_conv r = false /\ br_ok r = true) /\
+     (1 <= br_dones r -> valid s = true)) /\
+  (sstatus s <> ST_FAILED -> 1 <= br_dones r -> valid s = true).
+Proof. intros b orc cfg fuel x0. exact (generic_status orc _ cfg (rule_loop b orc cfg x0) fuel x0). Qed.
+Print Assumptions C02_bodies_status.
+
+(* (3b) what `converged` means for sgm / cocob / sda / wda, exactly: value_test(patience) < epsilon on the returned state right
+   after an evaluation with a finite value -- or the exact zero-sub-gradient exit (max |g_i| < DBL_EPSILON at the current
+   iterate; sgm, sda, wda only) *)
+Theorem C02_bodies_converged : forall b orc cfg fuel x0,
+  let r := body_run b orc cfg fuel x0 in
+  let s := br_s r in
+  sstatus s = ST_CONVERGED ->
+  valid s = true /\
+  ((br_exit r = BX_DONE /\ PrimFloat.ltb (value_test s (bc_patience cfg)) (bc_eps cfg) = true /\
+    ffin (fst (bo_eval orc (br_ne r - 1) (a_x (br_a r)))) = true) \/
+   (br_exit r = BX_ZERO /\ b <> BCocob /\ zero_grad (a_g (br_a r)) = true)).
+Proof. exact bodies_converged. Qed.
+Print Assumptions C02_bodies_converged.
+
+(* ... and NOT more: the stronger reading "converged => the returned value is near the smallest value" is false of the faithful
+   model (witness: sgm on a steep kink next to the start; reproduced on the real solver, see notes/C02.md). C02 does not promise
+   optimality: this is recorded, not a violation *)
+Theorem C02_bodies_converged_near_optimal_refuted : C02_bodies_converged_near_optimal_refuted_statement.
+Proof. exact bodies_converged_near_optimal_refuted. Qed.
+Print Assumptions C02_bodies_converged_near_optimal_refuted.
+
+(* (4) what makes the iterations well defined.
+   cocob: after `L = max(L, |gx|)` no L_i is below |gx_i| (for ALL values, NaN included); no component of the reward is
+   negative; positive finite L_i stay positive and finite on finite sub-gradients (the divisors L_i and G_i + L_i);
+   sgm / sda / wda: on the executed path (zero-sub-gradient exit not taken) max|g_i| >= DBL_EPSILON, hence the divisor
+   g.lpNorm<2>() is positive whenever it is a finite number not below max|g_i| (a property of the real reduction, checked on
+   every recorded norm); sgm's lambda = 1 / pow(iteration + 1, power) is positive only as far as libm's pow is: for an
+   arbitrary oracle it is not (refuted; checked on every recorded value) *)
+Theorem C02_cocob_invariants :
+  (forall L g, zipP (fun l gi => PrimFloat.ltb l (PrimFloat.abs gi) = false) (cocob_L L g) g) /\
+  (forall rw x x0 g, Forall (fun r => PrimFloat.ltb r PrimFloat.zero = false) (cocob_reward rw x x0 g)) /\
+  (forall L g,
+     Forall (fun l => PrimFloat.is_finite l = true /\ PrimFloat.ltb PrimFloat.zero l = true) L ->
+     Forall (fun gi => PrimFloat.is_finite gi = true) g ->
+     Forall (fun l => PrimFloat.is_finite l = true /\ PrimFloat.ltb PrimFloat.zero l = true) (cocob_L L g)).
+Proof. split; [exact cocob_L_ge|]. split; [exact cocob_reward_nonneg|exact cocob_L_pos]. Qed.
+Print Assumptions C02_cocob_invariants.
+
+Theorem C02_bodies_division_guard :
+  (forall b orc cfg x0 s a, b <> BCocob -> r_exit (rule_of b orc cfg x0) s a = None -> zero_grad (a_g a) = false) /\
+  (forall g nrm, zero_grad g = false -> PrimFloat.is_finite (maxabs g) = true -> PrimFloat.is_finite nrm = true ->
+                 PrimFloat.leb (maxabs g) nrm = true -> PrimFloat.ltb PrimFloat.zero nrm = true).
+Proof. split; [exact rule_no_exit|exact guard_norm_pos]. Qed.
+Print Assumptions C02_bodies_division_guard.
+
+Theorem C02_sgm_lambda_positive_refuted :
+  exists orc p k, PrimFloat.ltb PrimFloat.zero (sgm_lambda orc p k) = false.
+Proof. exact sgm_lambda_positive_refuted. Qed.
+Print Assumptions C02_sgm_lambda_positive_refuted.
+
+(* the translated decisions of the three source files are what the proofs assume (fails when sgm.cpp / cocob.cpp / pdsgm.cpp
+   change): loop condition, flags of the zero-sub-gradient exit and after an evaluation, base of pow and the iteration counter,
+   which L0 cocob reads, the reset test of pdsgm's model *)
+Theorem C02_bodies_kernels :
+  (forall b orc cfg x0 fc gc m, r_loop (rule_of b orc cfg x0) fc gc m = (fc + gc <? m)) /\
+  (forall v, src_sgm_zero_exit v = v) /\ src_sgm_zero_ok = true /\ src_sgm_zero_conv = true /\
+  (forall i, src_sgm_pow_base i = i + 1) /\ (forall i, src_sgm_next_iter i = i + 1) /\ src_sgm_iter0 = 0 /\
+  (forall v, src_sgm_iter_ok v = v) /\ (forall v, src_sgm_conv v = v) /\
+  (forall v, src_cocob_L0 v = if v then 1 else 0) /\ (forall v, src_cocob_iter_ok v = v) /\ (forall v, src_cocob_conv v = v) /\
+  (forall v, src_pdsgm_zero_exit v = v) /\ (forall v, src_pdsgm_zero_ok v = v) /\ src_pdsgm_zero_conv = true /\
+  (forall v, src_pdsgm_iter_ok v = v) /\ (forall v, src_pdsgm_conv v = v) /\ (forall v, src_pdsgm_reset v = v).
+Proof. split; [intros b orc cfg x0; exact (rule_loop b orc cfg x0)|]. repeat split; reflexivity. Qed.
+Print Assumptions C02_bodies_kernels.
+
+(* non-vacuity: runs of the model that move and improve, leave through the budget test, take the zero-sub-gradient exit,
+   end `failed` on a non-finite value keeping a valid best state, converge through the value test *)
+Example C02_nonvacuous_bodies :
+  (let r := body_run BSgm ex_parab (ex_bcfg 10 10 ex_one_b) (b_fuel (ex_bcfg 10 10 ex_one_b)) [PrimFloat.zero] in
+   br_exit r = BX_BUDGET /\ br_iters r = 4 /\ br_fc r + br_gc r = 10 /\ sstatus (br_s r) = ST_MAX_ITERS) /\
+  (let r := body_run BSgm ex_kink (ex_bcfg 1000 10 ex_one_b) (b_fuel (ex_bcfg 1000 10 ex_one_b)) [PrimFloat.zero] in
+   sstatus (br_s r) = ST_CONVERGED /\ br_exit r = BX_DONE /\ br_iters r = 10) /\
+  (let r := body_run BSda ex_wall (ex_bcfg 100 10 ex_one_b) (b_fuel (ex_bcfg 100 10 ex_one_b)) [PrimFloat.zero] in
+   sstatus (br_s r) = ST_FAILED /\ br_ok r = false /\ valid (br_s r) = true) /\
+  ffin (fst (bo_eval ex_parab 0 [PrimFloat.zero])) = true.
+Proof. vm_compute. repeat split; try reflexivity; try discriminate. Qed.
